@@ -435,6 +435,102 @@ def job_automix(job, tmp):
     return {"segs": segs, "in_step": (twin.steps_done == sim.steps_done and twin.t == sim.t), "mode": mode, "val": val, "steps_done": int(sim.steps_done)}
 
 
+HVF_FIELDS = ("particles", "t", "steps_done", "dt", "N", "integrator", "G") + CADENCE_FIELDS
+
+
+def _fresh_from(sim):
+    """a FRESH simulation holding the same particles, time and settings (no archive attached, cadence members at their defaults)"""
+    f = rebound.Simulation()
+    f.G = sim.G; f.integrator = sim.integrator; f.dt = sim.dt; f.t = sim.t
+    for i in range(sim.N):
+        p = sim.particles[i]
+        f.add(m=p.m, x=p.x, y=p.y, z=p.z, vx=p.vx, vy=p.vy, vz=p.vz, r=p.r, hash=p.hash)
+        f.particles[i].last_collision = p.last_collision
+        f.particles[i].ax, f.particles[i].ay, f.particles[i].az = p.ax, p.ay, p.az
+    f.steps_done = sim.steps_done
+    return f
+
+
+def _snap_view(fn):
+    """per snapshot: index time bits and the fields the comparison speaks about"""
+    if not os.path.exists(fn):
+        return []
+    sa = rebound.Simulationarchive(fn, process_warnings=False)
+    out = []
+    for k in range(sa.nblobs):
+        m = L.masked(rebound, L.stream_of(rebound, sa[k]), FT)
+        out.append((_bits(sa.t[k]), {n: m.get(FT[n][0]) for n in HVF_FIELDS}))
+    return out
+
+
+def job_hvf(job, tmp):
+    """history vs fresh: an object that was attached to archive A (then detached / re-attached / switched to archive B / changed
+    cadence / deleted and reused the file name / was restored from a snapshot) must from then on write the same snapshots, at the same
+    times, with the same cadence members, as a FRESH object holding the same state that is attached once."""
+    A = os.path.join(tmp, "hA.bin"); B = os.path.join(tmp, "hB.bin"); Bf = os.path.join(tmp, "hBf.bin")
+    for p in (A, B, Bf):
+        if os.path.exists(p):
+            os.remove(p)
+    v = job["variant"]; dt = job["dt"]; m1, c1 = job["c1"]; m2, c2 = job["c2"]
+    if v == "manual_switch":
+        # manual snapshots only: archive A, then archive B from the same object vs a fresh object writing B' (no cadence in use)
+        H = L.new_sim(rebound, {"n": job.get("n", 3), "integrator": job["integrator"], "dt": dt, "t0": job.get("t0", 0.0)})
+        for _ in range(job["n1"]):
+            H.save_to_file(A); H.step()
+        F = _fresh_from(H)
+        for _ in range(job["n2"]):
+            H.save_to_file(B); F.save_to_file(Bf); H.step(); F.step()
+        a = _snap_view(B); b = _snap_view(Bf); bad = []
+        if len(a) != len(b):
+            bad.append("history object wrote %d snapshots, fresh object %d" % (len(a), len(b)))
+        for k, (x, y) in enumerate(zip(a, b)):
+            dif = [n for n in HVF_FIELDS if x[1][n] != y[1][n]] + (["index time"] if x[0] != y[0] else [])
+            if dif:
+                bad.append("snapshot %d differs in %s" % (k, dif))
+        return {"n_hist": len(a), "n_fresh": len(b), "bad": bad[:5], "nbad": len(bad), "steps": [int(H.steps_done), int(F.steps_done)]}
+    H = L.new_sim(rebound, {"n": job.get("n", 3), "integrator": job["integrator"], "dt": dt, "t0": job.get("t0", 0.0)})
+    _attach(H, A, m1, c1)
+    H.integrate(H.t + (job["n1"] - 0.5) * H.dt, exact_finish_time=0)
+    skip = 0
+    if v == "restored":
+        sa = rebound.Simulationarchive(A, process_warnings=False)
+        H = sa[job.get("k", -1)]; del sa
+    if v == "detach":
+        H._simulationarchive_filename = None
+        H.integrate(H.t + (job.get("nd", 3) - 0.5) * H.dt, exact_finish_time=0)
+    F = _fresh_from(H)
+    if v == "same_file":
+        skip = len(_snap_view(A))
+        target = A
+        _attach(H, A, m2, c2)
+    elif v == "reuse_name_delete":
+        target = A
+        H.save_to_file(A, delete_file=True, **{m2: c2})
+    elif v == "switch_mode_delete":
+        target = B
+        H.save_to_file(B, delete_file=True, **{m2: c2})
+    else:
+        target = B
+        _attach(H, B, m2, c2)
+    _attach(F, Bf, m2, c2)
+    tmax = H.t + (job["n2"] - 0.5) * H.dt
+    H.integrate(tmax, exact_finish_time=0); F.integrate(tmax, exact_finish_time=0)
+    a = _snap_view(target)[skip:]; b = _snap_view(Bf)
+    bad = []
+    if len(a) != len(b):
+        bad.append("history object wrote %d snapshots, fresh object %d" % (len(a), len(b)))
+    for k, (x, y) in enumerate(zip(a, b)):
+        if x[0] != y[0]:
+            bad.append("snapshot %d: index time %r vs %r" % (k, struct.unpack("<d", struct.pack("<Q", x[0]))[0], struct.unpack("<d", struct.pack("<Q", y[0]))[0]))
+        # the threshold member of a cadence that is NOT in use is dead state (never read until the next attach, which resets it):
+        # a leftover value there is not a behavioural difference
+        dead = {"step": ("simulationarchive_next",), "interval": ("simulationarchive_next_step",), "walltime": ("simulationarchive_next_step",)}[m2]
+        dif = [n for n in HVF_FIELDS if n not in dead and x[1][n] != y[1][n]]
+        if dif:
+            bad.append("snapshot %d differs in %s" % (k, dif))
+    return {"n_hist": len(a), "n_fresh": len(b), "bad": bad[:5], "nbad": len(bad), "steps": [int(H.steps_done), int(F.steps_done)]}
+
+
 def job_autoF(job, tmp):
     """interval cadence in binary64: the heartbeat times (before every step and after each integrate call), the library's
     snapshot times and the final accumulated threshold simulationarchive_next"""
@@ -608,7 +704,7 @@ def main():
     with tempfile.TemporaryDirectory(prefix="c06drv") as tmp:
         for job in jobs:
             try:
-                r = {"hist": job_hist, "auto": job_auto, "open": job_open, "resume": job_resume, "spoof": job_spoof, "cycle": job_cycle, "resume1": job_resume1, "rerun": job_rerun, "crafted": job_crafted, "many": job_many, "attach": job_attach, "autocrash": job_autocrash, "autoF": job_autoF, "autolive": job_autolive, "automix": job_automix, "disabled": job_disabled}[job["kind"]](job, tmp)
+                r = {"hist": job_hist, "auto": job_auto, "open": job_open, "resume": job_resume, "spoof": job_spoof, "cycle": job_cycle, "resume1": job_resume1, "rerun": job_rerun, "crafted": job_crafted, "many": job_many, "attach": job_attach, "autocrash": job_autocrash, "autoF": job_autoF, "autolive": job_autolive, "automix": job_automix, "disabled": job_disabled, "hvf": job_hvf}[job["kind"]](job, tmp)
             except Exception as e:
                 import traceback
                 r = {"exception": "%r" % (e,), "tb": traceback.format_exc()[-600:]}
